@@ -773,9 +773,9 @@ def main():
         w("Inductive from_value := FromState | FromDoubleState | FromValRaw | FromValAsU32 | FromValAsF64.\n")
         w("Inductive from_flags := FromFlagsNew | FromFlagsOnline.\n")
         w("Inductive from_time := FromTimeNone | FromTimeSync | FromTimeCto.\n")
-        w("Record recipe := mk_recipe { r_type : mtype; r_group : N; r_var : N; r_layout : list (fld * wtype);\n"
-          "  r_to_flags : option to_flags; r_to_value : option to_value; r_to_time : option to_time;\n"
-          "  r_from_value : from_value; r_from_flags : from_flags; r_from_time : from_time }.\n\n")
+        w("Record recipe := mk_recipe { rc_type : mtype; rc_group : N; rc_var : N; rc_layout : list (fld * wtype);\n"
+          "  rc_to_flags : option to_flags; rc_to_value : option to_value; rc_to_time : option to_time;\n"
+          "  rc_from_value : from_value; rc_from_flags : from_flags; rc_from_time : from_time }.\n\n")
         w("Definition recipes : list recipe := [\n")
         lines = []
         for (ty, var) in sorted(recipes, key=key):
